@@ -77,7 +77,7 @@ def ej(fn, loops=1, **kw):
     return d
 JOBS += [
     ej('fill_def_levels', loops=2),
-    ej('prefix_sum_i32', loops=2, checks=NO_OVF), ej('prefix_sum_i64', loops=2, checks=NO_OVF),
+    ej('prefix_sum_i32', loops=2), ej('prefix_sum_i64', loops=2),   # all default checks incl. signed overflow (71bb5be)
     ej('gather_i32', loops=3), ej('gather_i64', loops=2), ej('gather_float', loops=3), ej('gather_double', loops=2),
     # unbounded contracts for BSS float do not close (cbmc > 300 s, also per stream / cadical); bounded jobs below
     ej('byte_stream_split_encode_float', loops=2, note='UNDECIDED unbounded: timeout; see ..._bounded'),
@@ -90,8 +90,6 @@ JOBS += [
        level='bounded', bound='input bytes in {0,1} (documented kernel domain); every count'),
     ej('find_run_length_i32', loops=2), ej('count_non_nulls', loops=2), ej('build_null_bitmap', loops=1),
     ej('crc32c', loops=2, backend='cadical'),   # with ~crc pre/post inversion (ab160bd); minisat needs > 300 s for the xor network
-    # SSE prefix sums with the signed-overflow obligation kept (tail loop still does int sum += values[i])
-    ej('prefix_sum_i32', loops=2, name='c15_sse_prefix_sum_i32_ub'), ej('prefix_sum_i64', loops=2, name='c15_sse_prefix_sum_i64_ub'),
 ]
 JOBS += [
     dict(name='c15_sse_match_copy_bounded', entry='h_sse_match_copy_bounded', prop='C15', harness='harness/C15/sse.c',
@@ -127,6 +125,13 @@ JOBS.append(dict(name='c15_sse_byte_stream_split_encode_double_bounded', entry='
                                                   'carquet_sse_byte_stream_split_encode_double.2:9', 'carquet_sse_byte_stream_split_encode_double.3:3'],
                  functions=['carquet_sse_byte_stream_split_encode_double'], level='bounded',
                  bound='count 0..47, all data, every stream and position', wip=True, timeout=600))
+# quick-tier variant of the SSE match_copy job: smaller bound (covers every branch: offsets 1, 2, 4, general < 16, >= 16)
+JOBS.append(dict(name='c15_sse_match_copy_bounded_q', entry='h_sse_match_copy_bounded', prop='C15', harness='harness/C15/sse.c',
+                 overlays=[], loop_contracts=False, defines=E['defines'] + ['CQV_MC_OFF=20', 'CQV_MC_LEN=32'],
+                 extra_sources=E['extra_sources'], trusted=E['trusted'],
+                 unwindset=['carquet_sse_match_copy.%d:%d' % lb for lb in enumerate([4, 9, 4, 17, 18, 4, 5, 5, 34])] + ['memcpy.0:17'],
+                 functions=['carquet_sse_match_copy'], level='bounded', bound='offset 1..20, len 0..32, all buffer contents',
+                 wip=True, timeout=300))
 def lemma(fn, **kw):
     d = dict(name='c15_sse_' + fn, entry='h_sse_' + fn, loop_contracts=False, unwind=66, functions=['carquet_sse_' + fn], wip=True)
     d.update(E); d['overlays'] = []; d.update(kw)
@@ -160,7 +165,7 @@ VALIDATED = set("""
 c15_dispatch_isa_subset c15_scalar_prefix_sum_i32 c15_scalar_prefix_sum_i64 c15_scalar_unpack_bools c15_scalar_build_null_bitmap
 c15_sse_gather_i64 c15_sse_gather_float c15_sse_gather_double c15_sse_memset_small_bounded c15_sse_memcpy_small_bounded
 c15_avx512_pack_bools_bounded c15_avx512_unpack_bools_bounded c15_avx2_pack_bools_bounded c15_sse_byte_stream_split_decode_double
-c15_sse_byte_stream_split_encode_double_bounded c15_sse_match_length_bounded c15_sse_byte_stream_split_encode_float_bounded c15_sse_byte_stream_split_decode_float_bounded
+c15_sse_match_copy_bounded_q c15_sse_byte_stream_split_encode_double_bounded c15_sse_match_length_bounded c15_sse_byte_stream_split_encode_float_bounded c15_sse_byte_stream_split_decode_float_bounded
 c15_sse_crc32c_check_value c15_sse_unpack_bools c15_sse_crc32c c15_scalar_match_copy_bounded c15_sse_match_copy_bounded
 c15_scalar_gather_i32 c15_scalar_gather_i64 c15_scalar_gather_float
 c15_scalar_gather_double c15_scalar_byte_split_encode_float c15_scalar_byte_split_decode_float
@@ -171,11 +176,9 @@ c15_sse_fill_def_levels c15_sse_prefix_sum_i32 c15_sse_prefix_sum_i64 c15_sse_ga
 c15_sse_bitunpack8_4bit c15_sse_bitunpack8_8bit c15_sse_pack_bools_01
 c15_sse_find_run_length_i32 c15_sse_count_non_nulls c15_sse_build_null_bitmap
 """.split())
-THOROUGH = {'c15_sse_byte_stream_split_encode_double_bounded': 510, 'c15_sse_byte_stream_split_decode_double': 85, 'c15_sse_match_length_bounded': 270, 'c15_sse_byte_stream_split_decode_float_bounded': 350, 'c15_sse_gather_i64': 300, 'c15_sse_gather_float': 510, 'c15_sse_gather_double': 300, 'c15_sse_crc32c': 100, 'c15_scalar_match_copy_bounded': 105, 'c15_sse_match_copy_bounded': 115, 'c15_scalar_byte_split_encode_double': 220, 'c15_scalar_byte_split_decode_double': 60,
-            'c15_sse_gather_i32': 300, 'c15_sse_prefix_sum_i32': 95, 'c15_sse_prefix_sum_i64': 90}
+THOROUGH = {'c15_sse_byte_stream_split_encode_double_bounded': 510, 'c15_sse_byte_stream_split_decode_double': 85, 'c15_sse_match_length_bounded': 270, 'c15_sse_byte_stream_split_decode_float_bounded': 350, 'c15_sse_gather_i64': 100, 'c15_sse_gather_float': 510, 'c15_sse_gather_double': 95, 'c15_sse_crc32c': 100, 'c15_scalar_match_copy_bounded': 105, 'c15_sse_match_copy_bounded': 115, 'c15_scalar_byte_split_encode_double': 220, 'c15_scalar_byte_split_decode_double': 60,
+            'c15_sse_gather_i32': 300, 'c15_sse_prefix_sum_i32': 140, 'c15_sse_prefix_sum_i64': 130}
 NOTES = {
-    'c15_sse_prefix_sum_i32_ub': 'FINDING (open): tail loop still does int32 sum += values[i] (signed overflow); vector part wraps. Functional job c15_sse_prefix_sum_i32 runs without the signed-overflow check.',
-    'c15_sse_prefix_sum_i64_ub': 'FINDING (open): tail loop still does int64 sum += values[i] (signed overflow); vector part wraps. Functional job c15_sse_prefix_sum_i64 runs without the signed-overflow check.',
     'c15_scalar_crc32c_check_value': 'spec sanity check only (9 table entries exercised); not validated by a breakage',
 }
 for j in JOBS:
